@@ -146,6 +146,7 @@ pub struct Seen {
     pub undetected_fault_scenarios: u64,
     pub dead_worker_states: u64,
     pub hammer_scenarios: u64,
+    pub pending_not_in_accept_queue: u64,
 }
 
 pub enum Outcome {
@@ -481,15 +482,38 @@ pub fn run_scenario(scn: &Scn, seen: &mut Seen) -> Outcome {
                 // capacity of live handles, counted from the real counters of the snapshot (faults make the shadow inexact)
                 let spare: i64 = snap.counters.iter().map(|(_, total)| (scn.limit as i64 - *total as i64).max(0)).sum();
                 if pending > 0 && spare > 0 {
-                    fails.push(fail(
-                        "C08:service-not-resumed",
-                        format!(
-                            "quiescent point after the fault: {pending} connection(s) wait in the backlog while live handles {:?} have {spare} free slot(s); avail bits {:?}; last events {:?}",
-                            snap.counters,
-                            snap.avail.iter().take(scn.workers).collect::<Vec<_>>(),
-                            monitor::tail(&log, 12)
-                        ),
-                    ));
+                    // "connected" for the client is not "in the accept queue" for the server: when client threads have
+                    // overrun the listen backlog the kernel keeps a connection half-open (final ACK dropped, SYN-ACK
+                    // retransmitted seconds later). The rule is about connections the server can see: the kernel's
+                    // accept queue must be non-empty, and stay so across one more barrier without being drained.
+                    let queued = |run: &engine::Running| match &run.addrs[0] {
+                        engine::Addr::Tcp(a) => monitor::tcp_accept_queue(a.port()).unwrap_or(0),
+                        _ => 1,
+                    };
+                    let q1 = queued(&run);
+                    let mut confirmed = None;
+                    if q1 > 0 {
+                        if let Ok(snap2) = run.accept_barrier(false) {
+                            let spare2: i64 = snap2.counters.iter().map(|(_, total)| (scn.limit as i64 - *total as i64).max(0)).sum();
+                            let q2 = queued(&run);
+                            if q2 > 0 && spare2 > 0 {
+                                confirmed = Some((snap2, spare2, q2));
+                            }
+                        }
+                    } else {
+                        seen.pending_not_in_accept_queue += 1;
+                    }
+                    if let Some((snap2, spare2, q2)) = confirmed {
+                        fails.push(fail(
+                            "C08:service-not-resumed",
+                            format!(
+                                "quiescent point after the fault: {q2} connection(s) wait in the listener's accept queue ({pending} by the clients' count) while live handles {:?} have {spare2} free slot(s); avail bits {:?}; last events {:?}",
+                                snap2.counters,
+                                snap2.avail.iter().take(scn.workers).collect::<Vec<_>>(),
+                                monitor::tail(&verif::log_since(0), 12)
+                            ),
+                        ));
+                    }
                 }
                 // a worker that has died must be discovered (and replaced) as long as clients are waiting: if it is still
                 // in the handle list, believed saturated, nothing will ever be sent to it and nobody will notice
@@ -630,13 +654,37 @@ pub fn run_scenario(scn: &Scn, seen: &mut Seen) -> Outcome {
                 ));
             }
             if outcome == "dropped" {
-                // legitimate only when no handle is left
-                let handles_left = log[..i].iter().rev().find_map(|r| if let Ev::LoopIdle(s) = &r.ev { Some(s.handles.len()) } else { None }).unwrap_or(0);
-                let failed_in_this_call = log[..=i].iter().rev().take_while(|r| !matches!(r.ev, Ev::Accepted { .. })).filter(|r| matches!(r.ev, Ev::DispatchFailed { .. })).count();
+                // legitimate only when no handle is left: the handle set at this point is the one of the last idle
+                // snapshot, minus every worker whose dispatch failed since, plus every replacement adopted since
+                // (several connections can be accepted, fail and be re-routed without an idle snapshot in between)
+                let snap_pos = log[..i].iter().rposition(|r| matches!(r.ev, Ev::LoopIdle(_)));
+                let mut handles: BTreeSet<usize> = match snap_pos {
+                    Some(p) => match &log[p].ev {
+                        Ev::LoopIdle(s) => s.handles.iter().copied().collect(),
+                        _ => BTreeSet::new(),
+                    },
+                    None => (0..scn.workers).collect(),
+                };
+                for r in &log[snap_pos.map(|p| p + 1).unwrap_or(0)..=i] {
+                    if Some(r.thread) != accept_thread {
+                        continue;
+                    }
+                    match &r.ev {
+                        Ev::DispatchFailed { worker, .. } => {
+                            handles.remove(worker);
+                        }
+                        Ev::Interest { kind: "worker", idx } => {
+                            handles.insert(*idx);
+                        }
+                        _ => {}
+                    }
+                }
+                let handles_left = handles.len();
+                let failed_in_this_call = 0;
                 if handles_left > failed_in_this_call {
                     fails.push(fail(
                         "C08:connection-dropped-although-workers-alive",
-                        format!("fd {fd} was dropped 'no workers' although {handles_left} handles existed and only {failed_in_this_call} failed; context {:?}", monitor::around(&log, i, 4, 8)),
+                        format!("fd {fd} was dropped 'no workers' although the accept thread still had handles {handles:?} whose dispatch had not failed; context {:?}", monitor::around(&log, i, 4, 8)),
                     ));
                 }
             }
